@@ -171,7 +171,7 @@ def run_pop_case(case, rng):
         m = chi.ComposedPopulationModel([
             chi.CovariatePopulationModel(chi.GaussianModel(), chi.LinearCovariateModel(n_cov=1)),
             chi.PooledModel(),
-            chi.CovariatePopulationModel(chi.LogNormalModel(centered=False), chi.LinearCovariateModel(n_cov=2))])
+            chi.CovariatePopulationModel(chi.LogNormalModel(), chi.LinearCovariateModel(n_cov=2))])   # centred: the draw depends on the covariates
         par = [3, 2, 1, 1, 7, 1, 2, 1, 0, 0, 1]   # G: mean, std, b_mean, b_std | pooled | LN: mu, sd, b_mu(c1,c2), b_sd(c1,c2)
         covs = np.array([[1.0, 2.0, 4.0], [2.0, 5.0, 1.0], [3.0, 1.0, 2.0]][:ns])
         claims1 = None
